@@ -79,6 +79,50 @@ def _work(units):
                     elo, ehi = textbook(n, p, conf, method, zt)
                     if w < (ehi - elo) * (1 - 1e-9) - 1e-15:
                         viol.append({"kind": "ci:conservative", "case": case, "observed": repr(w), "why": f"narrower than exact-normal width {ehi - elo!r}"})
+        elif u[0] == "spelling":
+            # every way of spelling a call (positional / keyword / keyword order / defaults left out) x a value set shared by
+            # p and confidence, executed one after the other in ONE process, forwards or backwards: each call is the
+            # textbook value of ITS OWN resolved arguments (a memo keyed by argument values alone would mix them up)
+            V = [0.05, 0.25, 0.5, 0.75, 0.95]
+            calls = []
+            for n in (10, 100):
+                for a in V:
+                    calls += [((n, a), {}), ((n,), {"p": a}), ((n,), {"confidence": a}), ((), {"n": n, "p": a}), ((), {"n": n, "confidence": a}), ((), {"p": a, "n": n}),
+                              ((), {"confidence": a, "n": n})]  # fmt: skip
+                    for b in V:
+                        calls += [((n, a, b), {}), ((n, a), {"confidence": b}), ((n,), {"p": a, "confidence": b}), ((n,), {"confidence": b, "p": a}),
+                                  ((), {"confidence": b, "p": a, "n": n}), ((n, a, b, "wald"), {}), ((n, a, b), {"method": "wald"}), ((n,), {"method": "wald", "confidence": b, "p": a}),
+                                  ((n, a, b, "Wald"), {}), ((n, a, b, "AGRESTI-COULL"), {})]  # fmt: skip
+            for a in V:
+                calls += [((), {"p": a}), ((), {"confidence": a}), ((), {"method": "wald", "p": a}), ((), {"method": "wald", "confidence": a})]
+            calls += [((), {}), ((10,), {}), ((), {"method": "wald"}), ((), {"method": "agresti-coull"})]
+            if u[1] == "rev":
+                calls = calls[::-1]
+            for rnd in (1, 2):
+                for args, kw in calls:
+                    n_eval += 1
+                    full = dict(zip(("n", "p", "confidence", "method"), args), **kw)
+                    n, pp, conf, method = full.get("n", 10), full.get("p", 0.5), full.get("confidence", 0.95), full.get("method", "agresti-coull")
+                    case = {"n": n, "p": pp, "confidence": conf, "method": method, "spelling": {"args": list(args), "kwargs": kw}, "order": u[1]}
+                    try:
+                        lo, hi = stats.confidence_interval(*args, **kw)
+                    except Exception as e:  # noqa
+                        viol.append({"kind": "ci:spelling", "case": case, "observed": f"{type(e).__name__}: {e}", "why": "a well-formed call raised"})
+                        continue
+                    tlo, thi = textbook(n, pp, conf, method.lower(), C * abs(math.log(((1 - conf) / 2) / (1 - (1 - conf) / 2))))
+                    outs.add((lo, hi))
+                    if not (close(lo, tlo) and close(hi, thi)):
+                        viol.append({"kind": "ci:spelling", "case": case, "observed": repr((lo, hi)),
+                                     "why": f"this call means n={n} p={pp} confidence={conf} method={method}: textbook {(tlo, thi)!r} (calls are made one after the other in one process, {u[1]})"})  # fmt: skip
+            for a in V + [0.025, 0.975]:
+                for args, kw in (((a,), {}), ((), {"alpha": a})):
+                    n_eval += 1
+                    z = stats.probit(*args, **kw)
+                    if not close(z, C * abs(math.log(a / (1 - a)))):
+                        viol.append({"kind": "ci:spelling", "case": {"alpha": a, "spelling": {"args": list(args), "kwargs": kw}, "order": u[1]}, "observed": repr(z), "why": "probit of its own argument"})
+            n_eval += 1
+            if stats.probit() != 0.0:
+                viol.append({"kind": "ci:spelling", "case": {"alpha": "default", "order": u[1]}, "observed": repr(stats.probit()), "why": "probit() is probit(0.5) = 0"})
         elif u[0] == "unknown":
             for m in UNKNOWN:
                 n_eval += 1
@@ -141,7 +185,7 @@ def _work(units):
 def run(res, tier):
     bits = 15 if tier == "quick" else 19
     step = 1 << 11
-    units = [("ci", m, p) for m in METHODS for p in PS] + [("unknown",), ("ztail",), ("zpairs",)]
+    units = [("ci", m, p) for m in METHODS for p in PS] + [("unknown",), ("ztail",), ("zpairs",), ("spelling", "fwd"), ("spelling", "rev")]
     units += [("z", lo, min(lo + step, 1 << bits), bits) for lo in range(1, 1 << bits, step)]
     for w in pmap(_work, permuted(units, "c18"), chunk=2):
         res.merge_worker(w)
@@ -168,6 +212,9 @@ def replay(data):
     out = None
     k = data["kind"]
     c = data["case"]
+    if k == "ci:spelling":
+        r = _work([("spelling", c.get("order", "fwd"))])
+        return bool(r["cov"]["violating_cases"]), f"{r['cov']['violating_cases']} calls of the spelling sequence disagree with the textbook value of their own arguments"
     if k.startswith("ci") and not data.get("interpreter_flags"):
         u = [("ci", c["method"], c["p"])] if k != "ci:unknown-method" else [("unknown",)]
         r = _work(u)
